@@ -80,6 +80,7 @@ type Ctx struct {
 	harness    string
 	reachedEnd bool
 	hchoices   []int
+	facts      map[*Term]bool
 	maxDepth   int
 }
 
@@ -120,6 +121,7 @@ func (c *Ctx) resetPath() {
 	c.notes = nil
 	c.shaApps = c.shaApps[:0]
 	c.reachedEnd = false
+	c.facts = map[*Term]bool{}
 }
 
 func (c *Ctx) eval(t *Term) (uint64, bool) {
@@ -214,6 +216,16 @@ func (c *Ctx) Branch(cond *Term) bool {
 	if cond.op == OpConst {
 		return cond.k == 1
 	}
+	if v, ok := c.facts[cond]; ok {
+		return v
+	}
+	r := c.branch(cond)
+	c.facts[cond] = r
+	c.facts[c.st.Not(cond)] = !r
+	return r
+}
+
+func (c *Ctx) branch(cond *Term) bool {
 	if c.concrete != nil {
 		v, _ := c.eval(cond)
 		if c.pos < len(c.trail) {
